@@ -470,6 +470,14 @@ Definition result_ok (r : result) : Prop :=
   | RExn XEncode => True | RExn XNotImpl => True
   | RExn _ => False
   end.
+(* the same, when the script may contain undecodable replies: BadReply for the call
+   that was reading one; AttributeError from LmtpClient.send_data when the RCPT reply it
+   looks at was such a BadReply *)
+Definition result_ok_gen (r : result) : Prop :=
+  match r with
+  | RExn XBadCode => False | RExn XLost => False | RExn XDead => False
+  | _ => True
+  end.
 (* (address, object) was produced by a call rcptto(address) that returned that object *)
 Definition from_call (ops : list op) (results : list result) (p : list N * nat) : Prop :=
   exists k, nth_error ops k = Some (ORcpt (fst p)) /\ nth_error results k = Some (RObj (snd p)).
